@@ -2,11 +2,11 @@
 
    Plan (DESIGN Appendix C.4): operations on different instance identities are independent, so one sibling level is
    handled by a fold over the diff nodes in WHATEVER order the diff tree has them ([apply_children_fold]): every diff
-   node turns "its" instance of the first tree into the one of the second tree ([Transforms]); what a diff node means is
+   node turns its own instance of the first tree into the one of the second tree ([Transforms]); what a diff node means is
    the order-independent relation [Sp] (one node) / [LevelSp] (one sibling level); [apply_sp] shows that applying a
    diff that satisfies it to the first siblings yields the second siblings exactly, default flags of the parents
-   included ([walks_spec]: the lyd_np_cont_dflt_set/_del walks keep "a non-presence container is default iff all its
-   children are").  [diff_sp] shows that lyd_diff_siblings produces such a diff. *)
+   included ([walks_spec]: the lyd_np_cont_dflt_set/_del walks keep the invariant: a non-presence container is default iff all its
+   children are).  [diff_sp] shows that lyd_diff_siblings produces such a diff. *)
 From Coq Require Import Permutation Sorted.
 From LY Require Import Base Tree TreeP DiffTree.
 From Coq Require Import ZifyBool ZifyNat ZifyN.
@@ -1080,7 +1080,7 @@ Proof.
 Qed.
 
 (* ------------------------------------------------------------------------------------------- *)
-(* applying a diff that means "fa becomes fb" yields fb                                           *)
+(* applying a diff that means [fa becomes fb] yields fb                                           *)
 (* ------------------------------------------------------------------------------------------- *)
 Lemma dd_nokeys_in l x : In x (dd_nokeys sch l) -> In x l.
 Proof.
